@@ -351,3 +351,41 @@ pub fn generate(rng: &mut Rng, cfg: &ShapeCfg) -> Prog {
         outputs: vec![root],
     }
 }
+
+/// The same scene at another scale: `f'(p) = f(p / k)` (every use of X, Y, Z
+/// becomes `axis * (1/k)`); with `k` a power of two the values are unchanged
+pub fn rescale(p: &Prog, k: f32) -> Prog {
+    use crate::gen_::prog::{Bin, PNode};
+    let mut nodes: Vec<PNode> = Vec::with_capacity(p.nodes.len() + 8);
+    let mut map: Vec<u32> = Vec::with_capacity(p.nodes.len());
+    let inv = 1.0 / k;
+    for n in &p.nodes {
+        let m = match *n {
+            PNode::Var(i) if i < 3 => {
+                nodes.push(PNode::Var(i));
+                nodes.push(PNode::Const(inv));
+                let (a, c) = (nodes.len() as u32 - 2, nodes.len() as u32 - 1);
+                nodes.push(PNode::Bin(Bin::Mul, a, c));
+                nodes.len() as u32 - 1
+            }
+            PNode::Var(i) => {
+                nodes.push(PNode::Var(i));
+                nodes.len() as u32 - 1
+            }
+            PNode::Const(c) => {
+                nodes.push(PNode::Const(c));
+                nodes.len() as u32 - 1
+            }
+            PNode::Un(o, a) => {
+                nodes.push(PNode::Un(o, map[a as usize]));
+                nodes.len() as u32 - 1
+            }
+            PNode::Bin(o, a, b) => {
+                nodes.push(PNode::Bin(o, map[a as usize], map[b as usize]));
+                nodes.len() as u32 - 1
+            }
+        };
+        map.push(m);
+    }
+    Prog { nodes, n_vars: p.n_vars, outputs: p.outputs.iter().map(|o| map[*o as usize]).collect() }
+}
